@@ -7,7 +7,7 @@
    control nodes and every notion of halting: nothing observable can be dropped, duplicated or reordered. *)
 From Coq Require Import ZArith List String Lia.
 From Verif Require Import Base.Word256 Base.PyInt C15.Syntax C15.GenUtils C15.Optimizer C15.FoldSound C15.OptSound
-  C15.OptTree C15.OptTreeSound C15.Bytes C15.MergeSound C15.MemInst.
+  C15.OptTree C15.OptTreeSound C15.Bytes C15.MergeSound C15.MemInst C15.SymSound.
 Import ListNotations.
 Open Scope Z_scope.
 
@@ -95,6 +95,32 @@ Theorem static_assert_sound :
   forall cancun e, wf e -> optimize cancun e = Err Raised -> Blame M e.
 Proof. intros M OK MO cancun e W H. eapply optimize_raised_all; eauto. Qed.
 Print Assumptions static_assert_sound.
+(* unique_symbol bookkeeping (usyms = IRnode.unique_symbols with its non-unique CompilerPanic = Err KeyErr).
+   (1) a binop rewrite keeps the symbol set of the node it rewrites: the _check_symbols sanity check after
+       _optimize_binop cannot fire because of the rewrite itself ... *)
+Theorem binop_rewrite_keeps_symbols :
+  forall o a b pc e' S, opt_binop o a b pc = Ok (Some e') -> usyms (Bin o a b) = Ok S ->
+  exists S', usyms e' = Ok S' /\ same_set S S' = true.
+Proof. exact opt_binop_syms. Qed.
+Print Assumptions binop_rewrite_keeps_symbols.
+(* ... but _optimize compares against the set taken BEFORE the children were optimised, so it panics when a child
+   lost a marker to dead-branch elimination and the parent binop then rewrites (fail-closed; reported) *)
+Example symbol_check_stale_set :
+  optimize true (Bin B_add (Node "if" [Lit 1; Lit 0; Node "seq" [Node "unique_symbol" [Var "s"]; Lit 2]]) (Cx 1))
+    = Err KeyErr /\
+  optimize true (Bin B_add (Node "if" [Lit 1; Lit 5; Node "seq" [Node "unique_symbol" [Var "s"]; Lit 2]]) (Cx 1))
+    = Ok (Bin B_add (Lit 5) (Cx 1)) /\
+  optimize true (Node "seq" [Node "unique_symbol" [Var "s"]; Node "unique_symbol" [Var "s"]]) = Err KeyErr.
+Proof. repeat split; vm_compute; reflexivity. Qed.
+(* (2) whenever optimize returns a tree, that tree carries a subset of the input's symbols, each still once: the
+   optimiser never duplicates, renames or invents a marker, so compile_ir's "symbol already exists" check
+   cannot fail because of it (markers named by leaves, as eval_once_check produces them) *)
+Theorem optimizer_keeps_symbols_unique :
+  forall cancun e e' S, symleaf e = true -> usyms e = Ok S -> optimize cancun e = Ok e' ->
+  exists S', usyms e' = Ok S' /\ incl S' S.
+Proof. exact optimize_syms. Qed.
+Print Assumptions optimizer_keeps_symbols_unique.
+
 (* the hypotheses are satisfiable: a concrete state space with a byte memory and big-endian words (MemInst.v) *)
 Example semok_memok_inhabited : SemOk InstSem /\ inhabited (MemOk InstSem).
 Proof. split; [exact InstSemOk | exact (inhabits InstMemOk)]. Qed.
